@@ -139,6 +139,18 @@ Theorem C16_engine_history (nb : nat) (cs : list nat) (L : list qfactor) (h : li
 Proof. apply ask_after_history. Qed.
 Print Assumptions C16_engine_history.
 
+(* rejected calls (a variable both asked and observed, unknown variables, an evidence state out of range,
+   virtual evidence of the wrong cardinality) give no answer and are no-ops on the engine: after ANY mix of
+   answered and rejected questions the engine is bound to the model it was created on and the next
+   question is answered (or rejected) exactly as by a fresh engine *)
+Theorem C16_rejected_calls (nb : nat) (cs : list nat) (L : list qfactor) (h : list question) (q : question) :
+  run_history_e nb cs (fresh L) h = fresh L /\
+  fst (ask_e nb cs (run_history_e nb cs (fresh L) h) q) = fst (ask_e nb cs (fresh L) q) /\
+  fst (ask_e nb cs (fresh L) q) =
+    (if q_valid nb cs (fresh L) q then Some (fst (ask nb cs (fresh L) q)) else None).
+Proof. split; [apply history_e_state|split; [apply ask_e_after_history|apply ask_e_answer]]. Qed.
+Print Assumptions C16_rejected_calls.
+
 (* ... and, for questions about listed variables with ordinary evidence, for EVERY pair of elimination
    orders used by the two engines *)
 Theorem C16_engine_history_any_order (nb : nat) (cs : list nat) :
